@@ -2126,6 +2126,12 @@ def gen_roundtrip_cases(tier):
     cases = [[]] + [[a] for a in names]
     if tier == 'thorough':
         cases += [[a, b] for a in names for b in names]
+    else:
+        # the pairs that combine a $DES model (non-linear elimination) with a dose compartment change
+        elim = ['set_michaelis_menten_elimination', 'set_mixed_mm_fo_elimination', 'set_zero_order_elimination']
+        absorption = ['set_first_order_absorption', 'set_zero_order_absorption', 'set_seq_zo_fo_absorption',
+                      'set_transit_compartments_2']
+        cases += [[a, b] for a in elim for b in absorption] + [[b, a] for a in elim for b in absorption]
     return cases
 
 
@@ -2671,7 +2677,8 @@ def bounded_codegen_roundtrip(tier='quick'):
         'bound': (
             f'pheno example model and all models reached by <={2 if tier == "thorough" else 1} of {ntr} structural '
             f'transformations (absorption, elimination, peripheral/transit compartments, lag time, '
-            f'bioavailability, ODE solver) [{len(rt_cases)}], written to disk and read back, compared '
+            f'bioavailability, ODE solver){"" if tier == "thorough" else " plus the 24 ordered pairs elimination x absorption"} '
+            f'[{len(rt_cases)}], written to disk and read back, compared '
             f'numerically at 3 points over all compartment numberings; printer: all {nexpr} distinct sympy '
             f'expressions from trees of depth <=2 over + - * / ** unary- exp log sqrt with operands WGT, AGE, '
             f'2, and {len(pr_cases) - nexpr} Piecewise statements (5 shapes) whose conditions are atoms, And/Or '
